@@ -364,3 +364,120 @@ REJECTION_TRIGGERS = [
 
 def rejection_texts(rng: random.Random, count: int) -> List[str]:
     return [PREAMBLE + rng.choice(REJECTION_TRIGGERS) + "\n" for _ in range(count)]
+
+
+# ---------------------------------------------------------------------------------------------------
+# Legal scripts that stress the transpiler itself rather than the firmware: C11 only asks for a prompt
+# answer of the right kind, so these need not be well-defined at run time.
+
+def growth_chain(rng: random.Random) -> str:
+    """A constant that doubles (in bits or in characters) on every line through a name: folding must stay bounded."""
+
+    n = rng.choice([24, 30, 40, 64])
+    seed = rng.choice(["7", "-7", "1 << 4000", "3 ** 50", "255", "10 ** 30"])
+    kind = rng.choice(["mul", "aug", "tuple", "pow", "shift", "str", "straug", "fstr", "fstr3", "minmax", "loop", "arg", "helper"])
+    if kind == "mul":
+        body = f"a = {seed}\n" + "a = a * a\n" * n
+    elif kind == "aug":
+        body = f"a = {seed}\n" + "a *= a\n" * n
+    elif kind == "tuple":
+        body = f"a, b = {seed}, 9\n" + "a, b = a * b, b * a\n" * n
+    elif kind == "pow":
+        body = "a = 3\n" + "a = a ** a\n" * rng.choice([5, 8, 12])
+    elif kind == "shift":
+        body = "a = 3\n" + rng.choice(["a = a << a\n", "a = a << 4000\n", "a = (a << 4096) * a\n"]) * n
+    elif kind == "str":
+        body = 's = "abcdefgh"\n' + "s = s + s\n" * n
+    elif kind == "straug":
+        body = 's = "abcdefgh"\n' + "s += s\n" * n
+    elif kind == "fstr":
+        body = 's = "abcdefgh"\n' + 's = f"{s}{s}"\n' * n
+    elif kind == "fstr3":
+        body = 's = "ab"\nk = 12345678\n' + 's = f"{s}-{k}-{s}"\nk = k * k\n' * n
+    elif kind == "minmax":
+        body = f"a = {seed}\n" + "a = max(a * a, a)\n" * n
+    elif kind == "loop":
+        body = f"a = {seed}\nwhile True:\n" + "    a = a * a\n" * n
+    elif kind == "arg":
+        body = f"a = {seed}\n" + "a = a * a\n" * n + rng.choice(["sleep(a)\n", "led.set_brightness(a)\n", "sv.write(a)\n", "mon.write(a)\n", "for i in range(a):\n    pass\n", "lcd.line(0, str(a))\n"])
+    else:
+        body = f"def grow(v):\n    return v * v\na = {seed}\n" + "a = grow(a) * a\n" * n
+    return PREAMBLE + body
+
+
+def wild_script(rng: random.Random) -> str:
+    """A syntactically valid script of the supported subset whose run-time behaviour may be undefined: list
+    operations beyond the list's length, removes of run-time values in every branch, helpers called with several
+    signatures, zero divisors, undefined names, deep nesting."""
+
+    lines: List[str] = ['pot = Potentiometer("A0")']
+    lists: List[str] = []
+    scalars: List[str] = ["v"]
+    lines.append("v = pot.read()")
+
+    def value() -> str:
+        return rng.choice(["0", "1", "2", "-1", "v", "pot.read()", "v + 1", "1.5", "'a'", "True", "ghost", "len(xs0)", "v // 0", "7 % 0"] + scalars)
+
+    def stmt(depth: int, allow_block: bool = True) -> List[str]:
+        ind = "    " * depth
+        k = rng.choice(["newlist", "append", "remove", "remove", "remove", "index", "assign", "alias", "relist", "call", "if", "if", "for", "while", "try", "scalar", "aug"])
+        if k == "newlist" or not lists:
+            name = f"xs{len(lists)}"
+            lists.append(name)
+            items = rng.choice(["[]", "[1]", "[1, 2]", "[v]", "[1.5]", "['a']", "[i for i in range(2)]", "[0] ", "[1, 1, 1]"])
+            return [f"{ind}{name} = {items}"]
+        xs = rng.choice(lists)
+        if k == "append":
+            return [f"{ind}{xs}.append({value()})"]
+        if k == "remove":
+            return [f"{ind}{xs}.remove({value()})"]
+        if k == "index":
+            return [f"{ind}mon.write({xs}[{rng.choice(['0', '1', '-1', '5', 'v', 'len(' + xs + ')', '-7'])}])"]
+        if k == "assign":
+            return [f"{ind}{xs}[{rng.choice(['0', '3', '-1', 'v'])}] = {value()}"]
+        if k == "alias":
+            name = f"ys{len(lists)}"
+            lists.append(name)
+            return [f"{ind}{name} = {xs}"]
+        if k == "relist":
+            return [f"{ind}{xs} = {rng.choice(['[]', '[2]', '[v, v]', rng.choice(lists)])}"]
+        if k == "call":
+            return [f"{ind}{rng.choice(['drop', 'push', 'peek'])}({value()})"]
+        if k == "scalar":
+            name = f"s{len(scalars)}"
+            scalars.append(name)
+            return [f"{ind}{name} = {value()}"]
+        if k == "aug":
+            return [f"{ind}{rng.choice(scalars)} {rng.choice(['+=', '-=', '*=', '//=', '%=', '/='])} {value()}"]
+        if not allow_block or depth >= 4:
+            return [f"{ind}pass"]
+        body = lambda: sum((stmt(depth + 1) for _ in range(rng.randint(1, 3))), [])  # noqa: E731
+        if k == "if":
+            out = [f"{ind}if {value()} > {value()}:"] + body()
+            if rng.random() < 0.5:
+                out += [f"{ind}elif {value()}:"] + body()
+            if rng.random() < 0.7:
+                out += [f"{ind}else:"] + body()
+            return out
+        if k == "for":
+            return [f"{ind}for i{depth} in range({rng.choice(['0', '2', 'v', 'len(' + xs + ')'])}):"] + body()
+        if k == "while":
+            return [f"{ind}while {value()} < {value()}:"] + body() + [f"{ind}    break"]
+        return [f"{ind}try:"] + body() + [f"{ind}except {rng.choice(['ValueError', 'Exception', 'IndexError'])}:"] + body()
+
+    helpers = [
+        "def drop(q):", f"    {rng.choice(['xs0', 'xs1'])}.remove(q)",
+        "def push(q):", "    xs0.append(q)", "    return q",
+        "def peek(q):", "    return xs0[q]" if rng.random() < 0.5 else "    return len(xs0) + q",
+    ]
+    lines.append("xs0 = " + rng.choice(["[1]", "[]", "[1, 2]"]))
+    lists.append("xs0")
+    lines.append("xs1 = " + rng.choice(["[1]", "[]", "[2.5]"]))
+    lists.append("xs1")
+    lines += helpers
+    for _ in range(rng.randint(3, 10)):
+        lines += stmt(0)
+    lines.append("while True:")
+    for _ in range(rng.randint(1, 6)):
+        lines += stmt(1)
+    return PREAMBLE + "\n".join(lines) + "\n"
